@@ -136,8 +136,13 @@ func (res *relayEntrySubmitter) waitForSubmissionEligibility(
 		big.NewInt(int64(groupSize)),
 	).Uint64()
 
+	// Member indexes are 1-based ([1, groupSize]) while the submission queue
+	// works on 0-based positions ([0, groupSize-1]), just like the first
+	// submitter index computed above. Without the conversion, an entry
+	// divisible by the group size would put the last member at the queue
+	// position `groupSize`, i.e. exactly at the relay entry timeout block.
 	submissionQueueIndex := calculateSubmissionQueueIndex(
-		uint64(res.index),
+		uint64(res.index)-1,
 		firstSubmitterMemberIndex,
 		uint64(groupSize),
 	)
